@@ -1,7 +1,16 @@
-// spike: global k-th mutating syscall monitor for multi-threaded tracees
+// sysmon: ptrace monitor for the crash / fault checks (C03, C04, C07, C18).
+// Follows every thread and child of the traced command, numbers the file-system-mutating system
+// calls of the ROOT process (the dud binary itself; its thread group) in one global order, logs
+// them with resolved paths, and can
+//   --kill K        SIGKILL the root process at the entry of its K-th mutating call
+//   --fail K ERRNO  make the root's K-th mutating call fail with ERRNO without executing it
+// usage: sysmon [--log FILE] [--kill K | --fail K ERRNO] -- cmd args...
+// exit status: the root's exit status (128+signal if killed); the log's last line is
+// "END count=<n> exit=<code>".
 #define _GNU_SOURCE
 #include <errno.h>
 #include <fcntl.h>
+#include <limits.h>
 #include <signal.h>
 #include <stdio.h>
 #include <stdlib.h>
@@ -13,32 +22,104 @@
 #include <sys/wait.h>
 #include <unistd.h>
 
-#define MAXT 4096
-static pid_t tids[MAXT]; static int insys[MAXT]; static int nt = 0;
-static int idx_of(pid_t t) { for (int i = 0; i < nt; i++) if (tids[i] == t) return i; tids[nt] = t; insys[nt] = 0; return nt++; }
+#define MAXT 8192
+static pid_t tids[MAXT];
+static int insys[MAXT], inject[MAXT];
+static int nt = 0;
+static int idx_of(pid_t t) {
+  for (int i = 0; i < nt; i++) if (tids[i] == t) return i;
+  if (nt >= MAXT) { fprintf(stderr, "sysmon: too many threads\n"); exit(2); }
+  tids[nt] = t; insys[nt] = 0; inject[nt] = 0; return nt++;
+}
 
-static int is_mut(struct user_regs_struct *r) {
-  long nr = r->orig_rax;
-  switch (nr) {
-  case SYS_openat: return (r->rdx & (O_WRONLY | O_RDWR | O_CREAT | O_TRUNC)) != 0;
-  case SYS_open: return (r->rsi & (O_WRONLY | O_RDWR | O_CREAT | O_TRUNC)) != 0;
-  case SYS_write: return r->rdi >= 3;
-  case SYS_pwrite64: case SYS_rename: case SYS_renameat: case SYS_renameat2: case SYS_unlink: case SYS_unlinkat:
-  case SYS_symlink: case SYS_symlinkat: case SYS_mkdir: case SYS_mkdirat: case SYS_chmod: case SYS_fchmod:
-  case SYS_fchmodat: case SYS_ftruncate: case SYS_truncate: case SYS_link: case SYS_linkat: case SYS_rmdir:
-    return 1;
+static pid_t tgid_of(pid_t t) {
+  char p[64], line[256]; snprintf(p, sizeof p, "/proc/%d/status", t);
+  FILE *f = fopen(p, "r"); if (!f) return -1;
+  pid_t tg = -1;
+  while (fgets(line, sizeof line, f)) if (sscanf(line, "Tgid: %d", &tg) == 1) break;
+  fclose(f); return tg;
+}
+
+static void read_str(pid_t t, unsigned long addr, char *out, size_t max) {
+  size_t n = 0; out[0] = 0;
+  if (!addr) return;
+  while (n + sizeof(long) < max) {
+    errno = 0;
+    long w = ptrace(PTRACE_PEEKDATA, t, addr + n, 0);
+    if (errno) break;
+    memcpy(out + n, &w, sizeof w);
+    for (size_t i = 0; i < sizeof w; i++) if (out[n + i] == 0) return;
+    n += sizeof w;
   }
-  return 0;
+  out[n] = 0;
+}
+
+static void fd_path(pid_t t, long fd, char *out, size_t max) {
+  char p[64];
+  if (fd == AT_FDCWD) snprintf(p, sizeof p, "/proc/%d/cwd", t); else snprintf(p, sizeof p, "/proc/%d/fd/%ld", t, fd);
+  ssize_t n = readlink(p, out, max - 1);
+  if (n < 0) n = 0;
+  out[n] = 0;
+}
+
+static void resolve(pid_t t, long dirfd, unsigned long addr, char *out, size_t max) {
+  char s[PATH_MAX]; read_str(t, addr, s, sizeof s);
+  if (s[0] == '/') { snprintf(out, max, "%s", s); return; }
+  char base[PATH_MAX]; fd_path(t, dirfd, base, sizeof base);
+  snprintf(out, max, "%s/%s", base, s);
+}
+
+// returns the name of the mutating syscall or NULL; fills p1/p2
+static const char *classify(pid_t t, struct user_regs_struct *r, char *p1, char *p2) {
+  long nr = r->orig_rax; p1[0] = p2[0] = 0;
+  int wr = O_WRONLY | O_RDWR | O_CREAT | O_TRUNC | O_APPEND;
+  switch (nr) {
+  case SYS_openat: if (!(r->rdx & wr)) return NULL; resolve(t, (int)r->rdi, r->rsi, p1, PATH_MAX);
+    snprintf(p2, PATH_MAX, "flags=%s%s%s%s", (r->rdx & O_CREAT) ? "C" : "", (r->rdx & O_EXCL) ? "X" : "", (r->rdx & O_TRUNC) ? "T" : "", (r->rdx & O_APPEND) ? "A" : ""); return "open";
+  case SYS_open: if (!(r->rsi & wr)) return NULL; resolve(t, AT_FDCWD, r->rdi, p1, PATH_MAX);
+    snprintf(p2, PATH_MAX, "flags=%s%s%s", (r->rsi & O_CREAT) ? "C" : "", (r->rsi & O_EXCL) ? "X" : "", (r->rsi & O_TRUNC) ? "T" : ""); return "open";
+  case SYS_creat: resolve(t, AT_FDCWD, r->rdi, p1, PATH_MAX); snprintf(p2, PATH_MAX, "flags=CT"); return "open";
+  case SYS_write: case SYS_pwrite64: case SYS_writev:
+    if ((long)r->rdi < 3) return NULL; fd_path(t, r->rdi, p1, PATH_MAX);
+    if (p1[0] != '/') return NULL; /* pipes, sockets */ return "write";
+  case SYS_rename: resolve(t, AT_FDCWD, r->rdi, p1, PATH_MAX); resolve(t, AT_FDCWD, r->rsi, p2, PATH_MAX); return "rename";
+  case SYS_renameat: case SYS_renameat2: resolve(t, (int)r->rdi, r->rsi, p1, PATH_MAX); resolve(t, (int)r->rdx, r->r10, p2, PATH_MAX); return "rename";
+  case SYS_unlink: resolve(t, AT_FDCWD, r->rdi, p1, PATH_MAX); return "unlink";
+  case SYS_unlinkat: resolve(t, (int)r->rdi, r->rsi, p1, PATH_MAX); return (r->rdx & AT_REMOVEDIR) ? "rmdir" : "unlink";
+  case SYS_rmdir: resolve(t, AT_FDCWD, r->rdi, p1, PATH_MAX); return "rmdir";
+  case SYS_symlink: read_str(t, r->rdi, p2, PATH_MAX); resolve(t, AT_FDCWD, r->rsi, p1, PATH_MAX); return "symlink";
+  case SYS_symlinkat: read_str(t, r->rdi, p2, PATH_MAX); resolve(t, (int)r->rsi, r->rdx, p1, PATH_MAX); return "symlink";
+  case SYS_mkdir: resolve(t, AT_FDCWD, r->rdi, p1, PATH_MAX); return "mkdir";
+  case SYS_mkdirat: resolve(t, (int)r->rdi, r->rsi, p1, PATH_MAX); return "mkdir";
+  case SYS_chmod: resolve(t, AT_FDCWD, r->rdi, p1, PATH_MAX); snprintf(p2, PATH_MAX, "mode=%llo", (unsigned long long)r->rsi); return "chmod";
+  case SYS_fchmodat: resolve(t, (int)r->rdi, r->rsi, p1, PATH_MAX); snprintf(p2, PATH_MAX, "mode=%llo", (unsigned long long)r->rdx); return "chmod";
+  case SYS_fchmod: fd_path(t, r->rdi, p1, PATH_MAX); snprintf(p2, PATH_MAX, "mode=%llo", (unsigned long long)r->rsi); return "chmod";
+  case SYS_ftruncate: fd_path(t, r->rdi, p1, PATH_MAX); return "truncate";
+  case SYS_truncate: resolve(t, AT_FDCWD, r->rdi, p1, PATH_MAX); return "truncate";
+  case SYS_link: resolve(t, AT_FDCWD, r->rdi, p1, PATH_MAX); resolve(t, AT_FDCWD, r->rsi, p2, PATH_MAX); return "link";
+  case SYS_linkat: resolve(t, (int)r->rdi, r->rsi, p1, PATH_MAX); resolve(t, (int)r->rdx, r->r10, p2, PATH_MAX); return "link";
+  }
+  return NULL;
 }
 
 int main(int argc, char **argv) {
-  long killat = atol(argv[1]); // 0 = just count
+  long killat = 0, failat = 0; int failerrno = EIO; const char *logpath = NULL; int a = 1;
+  while (a < argc && strcmp(argv[a], "--")) {
+    if (!strcmp(argv[a], "--log") && a + 1 < argc) { logpath = argv[a + 1]; a += 2; }
+    else if (!strcmp(argv[a], "--kill") && a + 1 < argc) { killat = atol(argv[a + 1]); a += 2; }
+    else if (!strcmp(argv[a], "--fail") && a + 2 < argc) { failat = atol(argv[a + 1]); failerrno = atoi(argv[a + 2]); a += 3; }
+    else { fprintf(stderr, "sysmon: bad argument %s\n", argv[a]); return 2; }
+  }
+  if (a >= argc - 0 || strcmp(argv[a], "--")) { fprintf(stderr, "usage: sysmon [--log F] [--kill K | --fail K ERRNO] -- cmd...\n"); return 2; }
+  a++;
+  FILE *lg = logpath ? fopen(logpath, "w") : NULL;
   pid_t child = fork();
-  if (child == 0) { ptrace(PTRACE_TRACEME, 0, 0, 0); raise(SIGSTOP); execvp(argv[2], argv + 2); _exit(127); }
+  if (child == 0) { ptrace(PTRACE_TRACEME, 0, 0, 0); raise(SIGSTOP); execvp(argv[a], argv + a); _exit(127); }
   int st; waitpid(child, &st, 0);
   ptrace(PTRACE_SETOPTIONS, child, 0, PTRACE_O_TRACESYSGOOD | PTRACE_O_TRACECLONE | PTRACE_O_TRACEFORK | PTRACE_O_TRACEVFORK | PTRACE_O_TRACEEXEC | PTRACE_O_EXITKILL);
   ptrace(PTRACE_SYSCALL, child, 0, 0);
-  long count = 0; int exitcode = -1;
+  long count = 0; int exitcode = -1; int killed = 0;
+  static char p1[PATH_MAX], p2[PATH_MAX];
   for (;;) {
     pid_t t = waitpid(-1, &st, __WALL);
     if (t < 0) break;
@@ -47,18 +128,36 @@ int main(int argc, char **argv) {
     int sig = WSTOPSIG(st); int i = idx_of(t);
     if (sig == (SIGTRAP | 0x80)) {
       insys[i] = !insys[i];
+      struct user_regs_struct r;
       if (insys[i]) {
-        struct user_regs_struct r; ptrace(PTRACE_GETREGS, t, 0, &r);
-        if (is_mut(&r)) {
-          count++;
-          if (killat && count == killat) { fprintf(stderr, "sysmon: killing at mutating syscall #%ld (nr=%lld)\n", count, r.orig_rax); kill(child, SIGKILL); }
+        if (ptrace(PTRACE_GETREGS, t, 0, &r) == 0) {
+          const char *name = classify(t, &r, p1, p2);
+          if (name) {
+            int root = tgid_of(t) == child;
+            if (root) count++;
+            if (lg) { fprintf(lg, "%ld\t%s\t%s\t%s\t%s\n", root ? count : 0, root ? "ROOT" : "CHILD", name, p1, p2); fflush(lg); }
+            if (root && killat && count == killat && !killed) {
+              killed = 1;
+              if (lg) { fprintf(lg, "KILL at %ld\n", count); fflush(lg); }
+              kill(child, SIGKILL);
+              for (int j = 0; j < nt; j++) if (tids[j] != child) kill(tids[j], SIGKILL);
+            }
+            if (root && failat && count == failat) {
+              inject[i] = 1; r.orig_rax = (unsigned long long)-1;
+              ptrace(PTRACE_SETREGS, t, 0, &r);
+              if (lg) { fprintf(lg, "FAIL at %ld errno=%d\n", count, failerrno); fflush(lg); }
+            }
+          }
         }
+      } else if (inject[i]) {
+        inject[i] = 0;
+        if (ptrace(PTRACE_GETREGS, t, 0, &r) == 0) { r.rax = (unsigned long long)(long)(-failerrno); ptrace(PTRACE_SETREGS, t, 0, &r); }
       }
       ptrace(PTRACE_SYSCALL, t, 0, 0);
     } else if (sig == SIGTRAP && (st >> 16) != 0) { ptrace(PTRACE_SYSCALL, t, 0, 0); }
-    else if (sig == SIGSTOP && !insys[i] ) { ptrace(PTRACE_SYSCALL, t, 0, 0); }
+    else if (sig == SIGSTOP && !insys[i]) { ptrace(PTRACE_SYSCALL, t, 0, 0); }
     else { ptrace(PTRACE_SYSCALL, t, 0, sig); }
   }
-  fprintf(stderr, "sysmon: count=%ld exit=%d\n", count, exitcode);
+  if (lg) { fprintf(lg, "END count=%ld exit=%d\n", count, exitcode); fclose(lg); }
   return exitcode < 0 ? 1 : exitcode;
 }
